@@ -1,17 +1,577 @@
-(* C09 - placeholder until Proofs/ArithProofs.v is merged *)
-From Xeh Require Import Model.Prelude.
+(* C09 - arithmetic, comparison and bitwise words follow exact integer / IEEE semantics.
+   Word-level statements run the word on an ARBITRARY machine state whose data stack starts
+   (above the mark of the current context) with the operands, and give the exact outcome:
+   the result, and the whole state left behind - the data stack and the entries added to
+   the reverse log when the machine is recording; nothing else changes.  [fo : fops] (the
+   binary64 operations; Model/F64.v is the Flocq / IEEE-754 instance) is universally
+   quantified: on reals the words are exactly the operations of [fo]. *)
+From Xeh Require Import Model.Prelude Model.Bits Model.Cell Model.Vm Model.Words.
+From Xeh Require Import Model.F64c.
+From Xeh Require Import Proofs.WordRun Proofs.ArithNum Proofs.ArithProofs Proofs.ArithTypeErr Proofs.F64cProofs.
+Local Notation length := List.length.
+Local Open Scope Z_scope.
 
-Theorem C09_wrap128_id : forall z, in_i128 z = true -> wrap128 z = z.
-Proof.
-  intros z H. unfold in_i128, i128_min, i128_max in H. apply andb_prop in H. destruct H as [H1 H2].
-  apply Z.leb_le in H1. apply Z.leb_le in H2. unfold wrap128, two128, two127 in *.
-  assert (Hp : (2 ^ 128 = 2 * 2 ^ 127)%Z) by reflexivity.
-  destruct (Z.ltb_spec (z mod 2 ^ 128) (2 ^ 127)) as [L | L].
-  - destruct (Z_le_gt_dec 0 z) as [P | N].
-    + rewrite Z.mod_small by lia. reflexivity.
-    + exfalso. rewrite <- (Z.mod_add z 1 (2 ^ 128)) in L by lia. rewrite Z.mod_small in L by lia. lia.
-  - destruct (Z_le_gt_dec 0 z) as [P | N].
-    + exfalso. rewrite Z.mod_small in L by lia. lia.
-    + rewrite <- (Z.mod_add z 1 (2 ^ 128)) by lia. rewrite Z.mod_small by lia. lia.
-Qed.
-Check C09_wrap128_id : forall z, in_i128 z = true -> wrap128 z = z.
+(* ---------- vocabulary of the statements ---------- *)
+(* [new] (newest first) is put on top of the reverse log, if the machine is recording *)
+Definition with_log (new : list rstep) (s : state) : state :=
+  match rlog s with Some l => set_rlog s (Some (new ++ l)%list) | None => s end.
+(* the operands: the topmost cells, above the mark of the current context ([a] below [b]) *)
+Definition args2 (s : state) (a b : cell) (rest : list cell) : Prop :=
+  ds s = b :: a :: rest /\ (ds_len (cx s) <= length rest)%nat.
+Definition args1 (s : state) (a : cell) (rest : list cell) : Prop :=
+  ds s = a :: rest /\ (ds_len (cx s) <= length rest)%nat.
+(* the final push does not hit the stack limit *)
+Definition room (s : state) (rest : list cell) : Prop :=
+  limit_reached (stack_limit s) (length rest) = false.
+(* success: the operands are replaced by [r]; failure: the operands are gone *)
+Definition ok2 (s : state) (a b : cell) (rest : list cell) (r : cell) : res unit :=
+  ROk tt (set_ds (with_log [RPopData; RPushData a; RPushData b] s) (r :: rest)).
+Definition err2 (s : state) (a b : cell) (rest : list cell) (k : ekind) (p : option cell) : res unit :=
+  RErr k p (set_ds (with_log [RPushData a; RPushData b] s) rest).
+Definition ok1 (s : state) (a : cell) (rest : list cell) (r : cell) : res unit :=
+  ROk tt (set_ds (with_log [RPopData; RPushData a] s) (r :: rest)).
+Definition err1 (s : state) (a : cell) (rest : list cell) (k : ekind) (p : option cell) : res unit :=
+  RErr k p (set_ds (with_log [RPushData a] s) rest).
+Definition f64_pat (r : Z) : Prop := 0 <= r < 2 ^ 64.
+
+(* reading the result states: apart from the reverse log, [set_ds (with_log l s) v] is [s] with
+   the data stack [v]; every other field (heap, dictionary, code, return / loop / special stacks,
+   context, limits, meter, output) is that of [s] *)
+Theorem C09_frame : forall l s v,
+  erase_log (set_ds (with_log l s) v) = set_ds (erase_log s) v /\
+  rlog (set_ds (with_log l s) v) = match rlog s with Some old => Some (l ++ old)%list | None => None end.
+Proof. exact result_frame. Qed.
+Check C09_frame : forall l s v,
+  erase_log (set_ds (with_log l s) v) = set_ds (erase_log s) v /\
+  rlog (set_ds (with_log l s) v) = match rlog s with Some old => Some (l ++ old)%list | None => None end.
+
+(* ================= exact integers ================= *)
+(* wrap128: the identity on representable values, always representable, congruent mod 2^128 *)
+Theorem C09_wrap128 : forall z,
+  (in_i128 z = true -> wrap128 z = z) /\ in_i128 (wrap128 z) = true /\
+  to_u128 (wrap128 z) = to_u128 z /\ wrap128 z = z - two128 * ((z + two127) / two128).
+Proof. exact wrap128_facts. Qed.
+Check C09_wrap128 : forall z,
+  (in_i128 z = true -> wrap128 z = z) /\ in_i128 (wrap128 z) = true /\
+  to_u128 (wrap128 z) = to_u128 z /\ wrap128 z = z - two128 * ((z + two127) / two128).
+
+Theorem C09_add_int : forall fo s a b rest x y,
+  args2 s a b rest -> room s rest -> value a = CInt x -> value b = CInt y ->
+  w_add fo s = ok2 s a b rest (CInt (wrap128 (x + y))).
+Proof. exact add_int. Qed.
+Check C09_add_int : forall fo s a b rest x y,
+  args2 s a b rest -> room s rest -> value a = CInt x -> value b = CInt y ->
+  w_add fo s = ok2 s a b rest (CInt (wrap128 (x + y))).
+
+Theorem C09_sub_int : forall fo s a b rest x y,
+  args2 s a b rest -> room s rest -> value a = CInt x -> value b = CInt y ->
+  w_sub fo s = ok2 s a b rest (CInt (wrap128 (x - y))).
+Proof. exact sub_int. Qed.
+Check C09_sub_int : forall fo s a b rest x y,
+  args2 s a b rest -> room s rest -> value a = CInt x -> value b = CInt y ->
+  w_sub fo s = ok2 s a b rest (CInt (wrap128 (x - y))).
+
+Theorem C09_mul_int : forall fo s a b rest x y,
+  args2 s a b rest -> room s rest -> value a = CInt x -> value b = CInt y ->
+  w_mul fo s = ok2 s a b rest (CInt (wrap128 (x * y))).
+Proof. exact mul_int. Qed.
+Check C09_mul_int : forall fo s a b rest x y,
+  args2 s a b rest -> room s rest -> value a = CInt x -> value b = CInt y ->
+  w_mul fo s = ok2 s a b rest (CInt (wrap128 (x * y))).
+
+(* / : truncating quotient when representable, overflow error otherwise, division error for 0 *)
+Theorem C09_div_int : forall fo s a b rest x y,
+  args2 s a b rest -> room s rest -> value a = CInt x -> value b = CInt y ->
+  w_div fo s =
+  if y =? 0 then err2 s a b rest EDivZero None
+  else if in_i128 (Z.quot x y) then ok2 s a b rest (CInt (Z.quot x y))
+       else err2 s a b rest EOverflow None.
+Proof. exact div_int. Qed.
+Check C09_div_int : forall fo s a b rest x y,
+  args2 s a b rest -> room s rest -> value a = CInt x -> value b = CInt y ->
+  w_div fo s =
+  if y =? 0 then err2 s a b rest EDivZero None
+  else if in_i128 (Z.quot x y) then ok2 s a b rest (CInt (Z.quot x y))
+       else err2 s a b rest EOverflow None.
+
+(* rem: remainder of the truncating division, division error for 0 *)
+Theorem C09_rem_int : forall fo s a b rest x y,
+  args2 s a b rest -> room s rest -> value a = CInt x -> value b = CInt y -> in_i128 x = true ->
+  w_rem fo s =
+  if y =? 0 then err2 s a b rest EDivZero None else ok2 s a b rest (CInt (Z.rem x y)).
+Proof. exact rem_int. Qed.
+Check C09_rem_int : forall fo s a b rest x y,
+  args2 s a b rest -> room s rest -> value a = CInt x -> value b = CInt y -> in_i128 x = true ->
+  w_rem fo s =
+  if y =? 0 then err2 s a b rest EDivZero None else ok2 s a b rest (CInt (Z.rem x y)).
+
+(* without the range assumption the remainder is wrapped, which is the identity in range *)
+Theorem C09_rem_int_wrapped : forall fo s a b rest x y,
+  args2 s a b rest -> room s rest -> value a = CInt x -> value b = CInt y ->
+  w_rem fo s =
+  if y =? 0 then err2 s a b rest EDivZero None else ok2 s a b rest (CInt (wrap128 (Z.rem x y))).
+Proof. exact rem_int_wrapped. Qed.
+Check C09_rem_int_wrapped : forall fo s a b rest x y,
+  args2 s a b rest -> room s rest -> value a = CInt x -> value b = CInt y ->
+  w_rem fo s =
+  if y =? 0 then err2 s a b rest EDivZero None else ok2 s a b rest (CInt (wrap128 (Z.rem x y))).
+
+Theorem C09_rem_wrap_id : forall x y, in_i128 x = true -> y <> 0 -> wrap128 (Z.rem x y) = Z.rem x y.
+Proof. exact rem_wrap_id. Qed.
+Check C09_rem_wrap_id : forall x y, in_i128 x = true -> y <> 0 -> wrap128 (Z.rem x y) = Z.rem x y.
+
+Theorem C09_quot_rem_laws : forall x y, y <> 0 ->
+  x = y * Z.quot x y + Z.rem x y /\ Z.abs (Z.rem x y) < Z.abs y /\
+  (Z.rem x y <> 0 -> Z.sgn (Z.rem x y) = Z.sgn x).
+Proof. exact rem_laws. Qed.
+Check C09_quot_rem_laws : forall x y, y <> 0 ->
+  x = y * Z.quot x y + Z.rem x y /\ Z.abs (Z.rem x y) < Z.abs y /\
+  (Z.rem x y <> 0 -> Z.sgn (Z.rem x y) = Z.sgn x).
+
+(* the only unrepresentable results of / neg abs on representable operands *)
+Theorem C09_overflow_cases : forall x y,
+  in_i128 x = true -> in_i128 y = true ->
+  (y <> 0 -> (in_i128 (Z.quot x y) = false <-> x = i128_min /\ y = -1)) /\
+  (in_i128 (- x) = false <-> x = i128_min) /\ (in_i128 (Z.abs x) = false <-> x = i128_min).
+Proof. exact overflow_cases. Qed.
+Check C09_overflow_cases : forall x y,
+  in_i128 x = true -> in_i128 y = true ->
+  (y <> 0 -> (in_i128 (Z.quot x y) = false <-> x = i128_min /\ y = -1)) /\
+  (in_i128 (- x) = false <-> x = i128_min) /\ (in_i128 (Z.abs x) = false <-> x = i128_min).
+
+Theorem C09_neg_int : forall s a rest x,
+  args1 s a rest -> room s rest -> value a = CInt x ->
+  w_neg s = if in_i128 (- x) then ok1 s a rest (CInt (- x)) else err1 s a rest EOverflow None.
+Proof. exact neg_int. Qed.
+Check C09_neg_int : forall s a rest x,
+  args1 s a rest -> room s rest -> value a = CInt x ->
+  w_neg s = if in_i128 (- x) then ok1 s a rest (CInt (- x)) else err1 s a rest EOverflow None.
+
+Theorem C09_abs_int : forall s a rest x,
+  args1 s a rest -> room s rest -> value a = CInt x ->
+  w_abs s = if in_i128 (Z.abs x) then ok1 s a rest (CInt (Z.abs x)) else err1 s a rest EOverflow None.
+Proof. exact abs_int. Qed.
+Check C09_abs_int : forall s a rest x,
+  args1 s a rest -> room s rest -> value a = CInt x ->
+  w_abs s = if in_i128 (Z.abs x) then ok1 s a rest (CInt (Z.abs x)) else err1 s a rest EOverflow None.
+
+Theorem C09_min_int : forall fo s a b rest x y,
+  args2 s a b rest -> room s rest -> value a = CInt x -> value b = CInt y ->
+  w_min fo s = ok2 s a b rest (CInt (Z.min x y)).
+Proof. exact min_int. Qed.
+Check C09_min_int : forall fo s a b rest x y,
+  args2 s a b rest -> room s rest -> value a = CInt x -> value b = CInt y ->
+  w_min fo s = ok2 s a b rest (CInt (Z.min x y)).
+
+Theorem C09_max_int : forall fo s a b rest x y,
+  args2 s a b rest -> room s rest -> value a = CInt x -> value b = CInt y ->
+  w_max fo s = ok2 s a b rest (CInt (Z.max x y)).
+Proof. exact max_int. Qed.
+Check C09_max_int : forall fo s a b rest x y,
+  args2 s a b rest -> room s rest -> value a = CInt x -> value b = CInt y ->
+  w_max fo s = ok2 s a b rest (CInt (Z.max x y)).
+
+(* the six comparisons: < <= > >= == <> are w_cmp is_lt .. is_ne *)
+Theorem C09_cmp_int : forall f s a b rest x y,
+  args2 s a b rest -> room s rest -> value a = CInt x -> value b = CInt y ->
+  w_cmp f s = ok2 s a b rest (CFlag (f (x ?= y))).
+Proof. exact cmp_int. Qed.
+Check C09_cmp_int : forall f s a b rest x y,
+  args2 s a b rest -> room s rest -> value a = CInt x -> value b = CInt y ->
+  w_cmp f s = ok2 s a b rest (CFlag (f (x ?= y))).
+
+Theorem C09_cmp_flags : forall x y,
+  is_lt (x ?= y) = (x <? y) /\ is_le (x ?= y) = (x <=? y) /\
+  is_gt (x ?= y) = (y <? x) /\ is_ge (x ?= y) = (y <=? x) /\
+  is_eq (x ?= y) = (x =? y) /\ is_ne (x ?= y) = negb (x =? y).
+Proof. exact cmp_flags. Qed.
+Check C09_cmp_flags : forall x y,
+  is_lt (x ?= y) = (x <? y) /\ is_le (x ?= y) = (x <=? y) /\
+  is_gt (x ?= y) = (y <? x) /\ is_ge (x ?= y) = (y <=? x) /\
+  is_eq (x ?= y) = (x =? y) /\ is_ne (x ?= y) = negb (x =? y).
+
+(* band bor bxor *)
+Theorem C09_bitwise_int : forall s a b rest x y,
+  args2 s a b rest -> room s rest -> value a = CInt x -> value b = CInt y ->
+  arith_int Z.land s = ok2 s a b rest (CInt (Z.land x y)) /\
+  arith_int Z.lor s = ok2 s a b rest (CInt (Z.lor x y)) /\
+  arith_int Z.lxor s = ok2 s a b rest (CInt (Z.lxor x y)).
+Proof. exact bitwise_int. Qed.
+Check C09_bitwise_int : forall s a b rest x y,
+  args2 s a b rest -> room s rest -> value a = CInt x -> value b = CInt y ->
+  arith_int Z.land s = ok2 s a b rest (CInt (Z.land x y)) /\
+  arith_int Z.lor s = ok2 s a b rest (CInt (Z.lor x y)) /\
+  arith_int Z.lxor s = ok2 s a b rest (CInt (Z.lxor x y)).
+
+Theorem C09_bnot_int : forall s a rest x,
+  args1 s a rest -> room s rest -> value a = CInt x ->
+  w_bnot s = ok1 s a rest (CInt (Z.lnot x)).
+Proof. exact bnot_int. Qed.
+Check C09_bnot_int : forall s a rest x,
+  args1 s a rest -> room s rest -> value a = CInt x ->
+  w_bnot s = ok1 s a rest (CInt (Z.lnot x)).
+
+(* Z.land etc. ARE the operations on the 128-bit two's complement representations *)
+Theorem C09_bitwise_twos_complement : forall x y,
+  to_u128 (Z.land x y) = Z.land (to_u128 x) (to_u128 y) /\
+  to_u128 (Z.lor x y) = Z.lor (to_u128 x) (to_u128 y) /\
+  to_u128 (Z.lxor x y) = Z.lxor (to_u128 x) (to_u128 y) /\
+  to_u128 (Z.lnot x) = two128 - 1 - to_u128 x.
+Proof. exact bitwise_u128. Qed.
+Check C09_bitwise_twos_complement : forall x y,
+  to_u128 (Z.land x y) = Z.land (to_u128 x) (to_u128 y) /\
+  to_u128 (Z.lor x y) = Z.lor (to_u128 x) (to_u128 y) /\
+  to_u128 (Z.lxor x y) = Z.lxor (to_u128 x) (to_u128 y) /\
+  to_u128 (Z.lnot x) = two128 - 1 - to_u128 x.
+
+(* bsl / bsr with a count 0..127: exact-or-wrapped product, floor division (arithmetic shift) *)
+Theorem C09_bsl_int : forall s a b rest x n,
+  args2 s a b rest -> room s rest -> value a = CInt x -> value b = CInt n -> 0 <= n < 128 ->
+  arith_int shl128 s = ok2 s a b rest (CInt (wrap128 (x * 2 ^ n))).
+Proof. exact bsl_int. Qed.
+Check C09_bsl_int : forall s a b rest x n,
+  args2 s a b rest -> room s rest -> value a = CInt x -> value b = CInt n -> 0 <= n < 128 ->
+  arith_int shl128 s = ok2 s a b rest (CInt (wrap128 (x * 2 ^ n))).
+
+Theorem C09_bsr_int : forall s a b rest x n,
+  args2 s a b rest -> room s rest -> value a = CInt x -> value b = CInt n -> 0 <= n < 128 ->
+  arith_int shr128 s = ok2 s a b rest (CInt (x / 2 ^ n)).
+Proof. exact bsr_int. Qed.
+Check C09_bsr_int : forall s a b rest x n,
+  args2 s a b rest -> room s rest -> value a = CInt x -> value b = CInt n -> 0 <= n < 128 ->
+  arith_int shr128 s = ok2 s a b rest (CInt (x / 2 ^ n)).
+
+(* popcnt counts the one bits of the 128-bit representation *)
+Theorem C09_popcnt_int : forall s a rest x,
+  args1 s a rest -> room s rest -> value a = CInt x ->
+  w_popcnt s = ok1 s a rest (CInt (popcount x)).
+Proof. exact popcnt_int. Qed.
+Check C09_popcnt_int : forall s a rest x,
+  args1 s a rest -> room s rest -> value a = CInt x ->
+  w_popcnt s = ok1 s a rest (CInt (popcount x)).
+
+Theorem C09_popcount_spec : forall x,
+  popcount x = Z.of_nat (length (filter (fun i => Z.testbit (to_u128 x) (Z.of_nat i)) (seq 0 128))).
+Proof. exact popcount_spec. Qed.
+Check C09_popcount_spec : forall x,
+  popcount x = Z.of_nat (length (filter (fun i => Z.testbit (to_u128 x) (Z.of_nat i)) (seq 0 128))).
+
+(* zero? positive? negative? *)
+Theorem C09_sign_tests_int : forall s a rest x,
+  args1 s a rest -> room s rest -> value a = CInt x ->
+  w_sign_test (Z.eqb 0) f64_is_zero s = ok1 s a rest (CFlag (0 =? x)) /\
+  w_sign_test (Z.ltb 0) f64_pos s = ok1 s a rest (CFlag (0 <? x)) /\
+  w_sign_test (fun x => Z.ltb x 0) f64_negv s = ok1 s a rest (CFlag (x <? 0)).
+Proof. exact sign_tests_int. Qed.
+Check C09_sign_tests_int : forall s a rest x,
+  args1 s a rest -> room s rest -> value a = CInt x ->
+  w_sign_test (Z.eqb 0) f64_is_zero s = ok1 s a rest (CFlag (0 =? x)) /\
+  w_sign_test (Z.ltb 0) f64_pos s = ok1 s a rest (CFlag (0 <? x)) /\
+  w_sign_test (fun x => Z.ltb x 0) f64_negv s = ok1 s a rest (CFlag (x <? 0)).
+
+(* every integer result is representable when the operands are *)
+Theorem C09_results_in_range : forall x y n,
+  in_i128 x = true -> in_i128 y = true -> 0 <= n < 128 ->
+  in_i128 (wrap128 (x + y)) = true /\ in_i128 (wrap128 (x - y)) = true /\ in_i128 (wrap128 (x * y)) = true /\
+  (y <> 0 -> in_i128 (Z.rem x y) = true) /\
+  in_i128 (Z.min x y) = true /\ in_i128 (Z.max x y) = true /\
+  in_i128 (Z.land x y) = true /\ in_i128 (Z.lor x y) = true /\ in_i128 (Z.lxor x y) = true /\
+  in_i128 (Z.lnot x) = true /\ in_i128 (wrap128 (x * 2 ^ n)) = true /\ in_i128 (x / 2 ^ n) = true /\
+  in_i128 (popcount x) = true.
+Proof. exact results_in_range. Qed.
+Check C09_results_in_range : forall x y n,
+  in_i128 x = true -> in_i128 y = true -> 0 <= n < 128 ->
+  in_i128 (wrap128 (x + y)) = true /\ in_i128 (wrap128 (x - y)) = true /\ in_i128 (wrap128 (x * y)) = true /\
+  (y <> 0 -> in_i128 (Z.rem x y) = true) /\
+  in_i128 (Z.min x y) = true /\ in_i128 (Z.max x y) = true /\
+  in_i128 (Z.land x y) = true /\ in_i128 (Z.lor x y) = true /\ in_i128 (Z.lxor x y) = true /\
+  in_i128 (Z.lnot x) = true /\ in_i128 (wrap128 (x * 2 ^ n)) = true /\ in_i128 (x / 2 ^ n) = true /\
+  in_i128 (popcount x) = true.
+
+(* ================= reals: the words are the operations of [fo] ================= *)
+Theorem C09_add_real : forall fo s a b rest x y,
+  args2 s a b rest -> room s rest -> value a = CReal x -> value b = CReal y ->
+  w_add fo s = ok2 s a b rest (CReal (f_add fo x y)).
+Proof. exact add_real. Qed.
+Check C09_add_real : forall fo s a b rest x y,
+  args2 s a b rest -> room s rest -> value a = CReal x -> value b = CReal y ->
+  w_add fo s = ok2 s a b rest (CReal (f_add fo x y)).
+
+Theorem C09_sub_real : forall fo s a b rest x y,
+  args2 s a b rest -> room s rest -> value a = CReal x -> value b = CReal y ->
+  w_sub fo s = ok2 s a b rest (CReal (f_sub fo x y)).
+Proof. exact sub_real. Qed.
+Check C09_sub_real : forall fo s a b rest x y,
+  args2 s a b rest -> room s rest -> value a = CReal x -> value b = CReal y ->
+  w_sub fo s = ok2 s a b rest (CReal (f_sub fo x y)).
+
+Theorem C09_mul_real : forall fo s a b rest x y,
+  args2 s a b rest -> room s rest -> value a = CReal x -> value b = CReal y ->
+  w_mul fo s = ok2 s a b rest (CReal (f_mul fo x y)).
+Proof. exact mul_real. Qed.
+Check C09_mul_real : forall fo s a b rest x y,
+  args2 s a b rest -> room s rest -> value a = CReal x -> value b = CReal y ->
+  w_mul fo s = ok2 s a b rest (CReal (f_mul fo x y)).
+
+(* real division: a zero divisor (either sign) is a division error *)
+Theorem C09_div_real : forall fo s a b rest x y,
+  args2 s a b rest -> room s rest -> value a = CReal x -> value b = CReal y ->
+  w_div fo s = if f64_is_zero y then err2 s a b rest EDivZero None
+               else ok2 s a b rest (CReal (f_div fo x y)).
+Proof. exact div_real. Qed.
+Check C09_div_real : forall fo s a b rest x y,
+  args2 s a b rest -> room s rest -> value a = CReal x -> value b = CReal y ->
+  w_div fo s = if f64_is_zero y then err2 s a b rest EDivZero None
+               else ok2 s a b rest (CReal (f_div fo x y)).
+
+Theorem C09_rem_real : forall fo s a b rest x y,
+  args2 s a b rest -> room s rest -> value a = CReal x -> value b = CReal y ->
+  w_rem fo s = ok2 s a b rest (CReal (f_rem fo x y)).
+Proof. exact rem_real. Qed.
+Check C09_rem_real : forall fo s a b rest x y,
+  args2 s a b rest -> room s rest -> value a = CReal x -> value b = CReal y ->
+  w_rem fo s = ok2 s a b rest (CReal (f_rem fo x y)).
+
+Theorem C09_min_real : forall fo s a b rest x y,
+  args2 s a b rest -> room s rest -> value a = CReal x -> value b = CReal y ->
+  w_min fo s = ok2 s a b rest (CReal (f_min fo x y)).
+Proof. exact min_real. Qed.
+Check C09_min_real : forall fo s a b rest x y,
+  args2 s a b rest -> room s rest -> value a = CReal x -> value b = CReal y ->
+  w_min fo s = ok2 s a b rest (CReal (f_min fo x y)).
+
+Theorem C09_max_real : forall fo s a b rest x y,
+  args2 s a b rest -> room s rest -> value a = CReal x -> value b = CReal y ->
+  w_max fo s = ok2 s a b rest (CReal (f_max fo x y)).
+Proof. exact max_real. Qed.
+Check C09_max_real : forall fo s a b rest x y,
+  args2 s a b rest -> room s rest -> value a = CReal x -> value b = CReal y ->
+  w_max fo s = ok2 s a b rest (CReal (f_max fo x y)).
+
+(* neg / abs on a real flip / clear the sign bit of the pattern *)
+Theorem C09_neg_real : forall s a rest r,
+  args1 s a rest -> room s rest -> value a = CReal r ->
+  w_neg s = ok1 s a rest (CReal (Z.lxor r (2 ^ 63))).
+Proof. exact neg_real. Qed.
+Check C09_neg_real : forall s a rest r,
+  args1 s a rest -> room s rest -> value a = CReal r ->
+  w_neg s = ok1 s a rest (CReal (Z.lxor r (2 ^ 63))).
+
+Theorem C09_abs_real : forall s a rest r,
+  args1 s a rest -> room s rest -> value a = CReal r ->
+  w_abs s = ok1 s a rest (CReal (r mod 2 ^ 63)).
+Proof. exact abs_real. Qed.
+Check C09_abs_real : forall s a rest r,
+  args1 s a rest -> room s rest -> value a = CReal r ->
+  w_abs s = ok1 s a rest (CReal (r mod 2 ^ 63)).
+
+Theorem C09_sign_bit : forall r, f64_pat r ->
+  (f64_pat (Z.lxor r (2 ^ 63)) /\ f64_neg (Z.lxor r (2 ^ 63)) = negb (f64_neg r) /\
+   (Z.lxor r (2 ^ 63)) mod 2 ^ 63 = r mod 2 ^ 63 /\ f64_key (Z.lxor r (2 ^ 63)) = - f64_key r) /\
+  (f64_pat (r mod 2 ^ 63) /\ f64_neg (r mod 2 ^ 63) = false /\
+   (r mod 2 ^ 63) mod 2 ^ 63 = r mod 2 ^ 63 /\ f64_key (r mod 2 ^ 63) = Z.abs (f64_key r)).
+Proof. exact f64_sign_ops. Qed.
+Check C09_sign_bit : forall r, f64_pat r ->
+  (f64_pat (Z.lxor r (2 ^ 63)) /\ f64_neg (Z.lxor r (2 ^ 63)) = negb (f64_neg r) /\
+   (Z.lxor r (2 ^ 63)) mod 2 ^ 63 = r mod 2 ^ 63 /\ f64_key (Z.lxor r (2 ^ 63)) = - f64_key r) /\
+  (f64_pat (r mod 2 ^ 63) /\ f64_neg (r mod 2 ^ 63) = false /\
+   (r mod 2 ^ 63) mod 2 ^ 63 = r mod 2 ^ 63 /\ f64_key (r mod 2 ^ 63) = Z.abs (f64_key r)).
+
+(* comparisons of non-NaN reals follow the order of the magnitude key *)
+Theorem C09_cmp_real : forall f s a b rest x y,
+  args2 s a b rest -> room s rest -> value a = CReal x -> value b = CReal y ->
+  f64_is_nan x = false -> f64_is_nan y = false ->
+  w_cmp f s = ok2 s a b rest (CFlag (f (f64_key x ?= f64_key y))).
+Proof. exact cmp_real. Qed.
+Check C09_cmp_real : forall f s a b rest x y,
+  args2 s a b rest -> room s rest -> value a = CReal x -> value b = CReal y ->
+  f64_is_nan x = false -> f64_is_nan y = false ->
+  w_cmp f s = ok2 s a b rest (CFlag (f (f64_key x ?= f64_key y))).
+
+Theorem C09_sign_tests_real : forall s a rest r,
+  args1 s a rest -> room s rest -> value a = CReal r ->
+  w_sign_test (Z.eqb 0) f64_is_zero s = ok1 s a rest (CFlag (f64_is_zero r)) /\
+  w_sign_test (Z.ltb 0) f64_pos s = ok1 s a rest (CFlag (negb (f64_is_nan r) && (0 <? f64_key r))) /\
+  w_sign_test (fun x => Z.ltb x 0) f64_negv s = ok1 s a rest (CFlag (negb (f64_is_nan r) && (f64_key r <? 0))).
+Proof. exact sign_tests_real. Qed.
+Check C09_sign_tests_real : forall s a rest r,
+  args1 s a rest -> room s rest -> value a = CReal r ->
+  w_sign_test (Z.eqb 0) f64_is_zero s = ok1 s a rest (CFlag (f64_is_zero r)) /\
+  w_sign_test (Z.ltb 0) f64_pos s = ok1 s a rest (CFlag (negb (f64_is_nan r) && (0 <? f64_key r))) /\
+  w_sign_test (fun x => Z.ltb x 0) f64_negv s = ok1 s a rest (CFlag (negb (f64_is_nan r) && (f64_key r <? 0))).
+
+(* ================= conversions ================= *)
+Theorem C09_into_real_int : forall fo s a rest x,
+  args1 s a rest -> room s rest -> value a = CInt x ->
+  w_into_real fo s = ok1 s a rest (CReal (f_of_int fo x)).
+Proof. exact into_real_int. Qed.
+Check C09_into_real_int : forall fo s a rest x,
+  args1 s a rest -> room s rest -> value a = CInt x ->
+  w_into_real fo s = ok1 s a rest (CReal (f_of_int fo x)).
+
+Theorem C09_into_real_real : forall fo s a rest r,
+  args1 s a rest -> value a = CReal r -> w_into_real fo s = ROk tt s.
+Proof. exact into_real_real. Qed.
+Check C09_into_real_real : forall fo s a rest r,
+  args1 s a rest -> value a = CReal r -> w_into_real fo s = ROk tt s.
+
+Theorem C09_into_int_real : forall fo s a rest r,
+  args1 s a rest -> room s rest -> value a = CReal r ->
+  w_into_int fo s = ok1 s a rest (CInt (f_to_int fo r)).
+Proof. exact into_int_real. Qed.
+Check C09_into_int_real : forall fo s a rest r,
+  args1 s a rest -> room s rest -> value a = CReal r ->
+  w_into_int fo s = ok1 s a rest (CInt (f_to_int fo r)).
+
+Theorem C09_into_int_int : forall fo s a rest x,
+  args1 s a rest -> value a = CInt x -> w_into_int fo s = ROk tt s.
+Proof. exact into_int_int. Qed.
+Check C09_into_int_int : forall fo s a rest x,
+  args1 s a rest -> value a = CInt x -> w_into_int fo s = ROk tt s.
+
+Theorem C09_round_real : forall fo s a rest r,
+  args1 s a rest -> room s rest -> value a = CReal r ->
+  w_round fo s = ok1 s a rest (CReal (f_round fo r)).
+Proof. exact round_real. Qed.
+Check C09_round_real : forall fo s a rest r,
+  args1 s a rest -> room s rest -> value a = CReal r ->
+  w_round fo s = ok1 s a rest (CReal (f_round fo r)).
+
+(* the integer-arithmetic conversions of Model/F64c.v (i128 <-> f64, f64::round, f32 <-> f64) *)
+Theorem C09_f64_int_round_trip : forall z, Z.abs z < 2 ^ 53 -> f64_to_int (f64_of_int z) = z.
+Proof. exact f64_int_round_trip. Qed.
+Check C09_f64_int_round_trip : forall z, Z.abs z < 2 ^ 53 -> f64_to_int (f64_of_int z) = z.
+
+Theorem C09_f64_of_int_monotone : forall z1 z2,
+  in_i128 z1 = true -> in_i128 z2 = true -> z1 <= z2 ->
+  f64_key (f64_of_int z1) <= f64_key (f64_of_int z2).
+Proof. exact f64_of_int_monotone_i128. Qed.
+Check C09_f64_of_int_monotone : forall z1 z2,
+  in_i128 z1 = true -> in_i128 z2 = true -> z1 <= z2 ->
+  f64_key (f64_of_int z1) <= f64_key (f64_of_int z2).
+
+(* finite, and no significand bits below the binary point *)
+Definition f64_integral (p : Z) : Prop :=
+  f64_exp p <> 2047 /\ (f64_exp p < 1075 -> f64_mant p mod 2 ^ (- f64_ex p) = 0).
+
+Theorem C09_f64_round_integral : forall p, f64_pat p -> f64_integral p -> f64_round p = p.
+Proof. exact f64_round_integral. Qed.
+Check C09_f64_round_integral : forall p, f64_pat p -> f64_integral p -> f64_round p = p.
+
+Definition f32_pat (p : Z) : Prop := 0 <= p < 2 ^ 32.
+Definition f32_is_nan (p : Z) : bool := ((p / 2 ^ 23) mod 256 =? 255) && negb (p mod 2 ^ 23 =? 0).
+
+Theorem C09_f32_f64_round_trip : forall p,
+  f32_pat p -> f32_is_nan p = false -> f64_to_f32 (f32_to_f64 p) = p.
+Proof. exact f32_f64_round_trip. Qed.
+Check C09_f32_f64_round_trip : forall p,
+  f32_pat p -> f32_is_nan p = false -> f64_to_f32 (f32_to_f64 p) = p.
+
+Theorem C09_f32_to_f64_injective : forall p q,
+  f32_pat p -> f32_pat q -> f32_is_nan p = false -> f32_is_nan q = false ->
+  f32_to_f64 p = f32_to_f64 q -> p = q.
+Proof. exact f32_to_f64_injective. Qed.
+Check C09_f32_to_f64_injective : forall p q,
+  f32_pat p -> f32_pat q -> f32_is_nan p = false -> f32_is_nan q = false ->
+  f32_to_f64 p = f32_to_f64 q -> p = q.
+
+(* ================= type errors ================= *)
+(* mixed int / real operands: a type error reporting the value of the LEFT operand *)
+Definition mixed (a b : cell) : Prop :=
+  (exists x y, value a = CInt x /\ value b = CReal y) \/ (exists x y, value a = CReal x /\ value b = CInt y).
+
+Theorem C09_mixed_type_error : forall fo s a b rest,
+  args2 s a b rest -> mixed a b ->
+  let e := err2 s a b rest EType (Some (value a)) in
+  w_add fo s = e /\ w_sub fo s = e /\ w_mul fo s = e /\ w_div fo s = e /\ w_rem fo s = e /\
+  w_min fo s = e /\ w_max fo s = e /\ (forall f, w_cmp f s = e).
+Proof. exact mixed_type_error. Qed.
+Check C09_mixed_type_error : forall fo s a b rest,
+  args2 s a b rest -> mixed a b ->
+  let e := err2 s a b rest EType (Some (value a)) in
+  w_add fo s = e /\ w_sub fo s = e /\ w_mul fo s = e /\ w_div fo s = e /\ w_rem fo s = e /\
+  w_min fo s = e /\ w_max fo s = e /\ (forall f, w_cmp f s = e).
+
+(* the bitwise words and shifts look at the right operand first *)
+Theorem C09_bitwise_type_error : forall f s a b rest,
+  args2 s a b rest ->
+  ((forall y, value b <> CInt y) ->
+   arith_int f s = RErr EType (Some (value b)) (set_ds (with_log [RPushData b] s) (a :: rest))) /\
+  (forall y, value b = CInt y -> (forall x, value a <> CInt x) ->
+   arith_int f s = err2 s a b rest EType (Some (value a))).
+Proof. exact arith_int_type_error. Qed.
+Check C09_bitwise_type_error : forall f s a b rest,
+  args2 s a b rest ->
+  ((forall y, value b <> CInt y) ->
+   arith_int f s = RErr EType (Some (value b)) (set_ds (with_log [RPushData b] s) (a :: rest))) /\
+  (forall y, value b = CInt y -> (forall x, value a <> CInt x) ->
+   arith_int f s = err2 s a b rest EType (Some (value a))).
+
+(* EVERY word of the property, looked up by name in the table of native words, on EVERY
+   state: a type error's payload is one of the (at most n) operand cells above the mark of the
+   current context, or the untagged value of one - never any other value *)
+Definition operands (n : nat) (s : state) : list cell := firstn (Nat.min n (data_depth s)) (ds s).
+Definition reports_operand (n : nat) (s : state) (r : res unit) : Prop :=
+  forall p s', r = RErr EType (Some p) s' ->
+  exists c, In c (operands n s) /\ (p = c \/ p = value c).
+Definition c09_words : list (string * nat) :=
+  [ ("+", 2); ("-", 2); ("*", 2); ("/", 2); ("rem", 2); ("neg", 1); ("abs", 1); ("min", 2); ("max", 2);
+    ("<", 2); ("<=", 2); (">", 2); (">=", 2); ("==", 2); ("<>", 2);
+    ("band", 2); ("bor", 2); ("bxor", 2); ("bnot", 1); ("popcnt", 1); ("bsl", 2); ("bsr", 2);
+    (">int", 1); (">real", 1); ("round", 1); ("zero?", 1); ("positive?", 1); ("negative?", 1) ]%string%nat.
+
+Theorem C09_type_error_payload : forall fo name n w s,
+  In (name, n) c09_words -> native_fn fo name = Some w -> reports_operand n s (w s).
+Proof. exact type_error_payload. Qed.
+Check C09_type_error_payload : forall fo name n w s,
+  In (name, n) c09_words -> native_fn fo name = Some w -> reports_operand n s (w s).
+
+(* the names of the table are the programs the theorems above are about *)
+Local Open Scope string_scope.
+Example C09_table : forall fo,
+  native_fn fo "+" = Some (w_add fo) /\ native_fn fo "-" = Some (w_sub fo) /\
+  native_fn fo "*" = Some (w_mul fo) /\ native_fn fo "/" = Some (w_div fo) /\
+  native_fn fo "rem" = Some (w_rem fo) /\ native_fn fo "neg" = Some w_neg /\
+  native_fn fo "abs" = Some w_abs /\ native_fn fo "min" = Some (w_min fo) /\
+  native_fn fo "max" = Some (w_max fo) /\
+  native_fn fo "<" = Some (w_cmp is_lt) /\ native_fn fo "<=" = Some (w_cmp is_le) /\
+  native_fn fo ">" = Some (w_cmp is_gt) /\ native_fn fo ">=" = Some (w_cmp is_ge) /\
+  native_fn fo "==" = Some (w_cmp is_eq) /\ native_fn fo "<>" = Some (w_cmp is_ne) /\
+  native_fn fo "band" = Some (arith_int Z.land) /\ native_fn fo "bor" = Some (arith_int Z.lor) /\
+  native_fn fo "bxor" = Some (arith_int Z.lxor) /\ native_fn fo "bnot" = Some w_bnot /\
+  native_fn fo "bsl" = Some (arith_int shl128) /\ native_fn fo "bsr" = Some (arith_int shr128) /\
+  native_fn fo "popcnt" = Some w_popcnt /\
+  native_fn fo ">int" = Some (w_into_int fo) /\ native_fn fo ">real" = Some (w_into_real fo) /\
+  native_fn fo "round" = Some (w_round fo) /\
+  native_fn fo "zero?" = Some (w_sign_test (Z.eqb 0) f64_is_zero) /\
+  native_fn fo "positive?" = Some (w_sign_test (Z.ltb 0) f64_pos) /\
+  native_fn fo "negative?" = Some (w_sign_test (fun x => Z.ltb x 0) f64_negv).
+Proof. intro fo. repeat split. Qed.
+
+(* the hypotheses are satisfiable: on a concrete recording machine with one cell below the
+   operands, i128_max + 3 wraps, i128_min / -1 overflows, 7 rem 0 is a division error, and
+   1 + 1.0 is a type error reporting the left operand *)
+Definition st (stack : list cell) : state :=
+  mkstate [] [] [] [] [] [] stack [] [] [] [] (mkctx 1 0 0 0 0 0 0 0 MEval) [] 0%Z None None (Some 10%Z)
+          (Some []) "" None false.
+
+Example C09_nonvacuous : forall fo,
+  let bottom := CStr "below the mark" in
+  args2 (st [CInt 3; CInt i128_max; bottom]) (CInt i128_max) (CInt 3) [bottom] /\
+  room (st [CInt 3; CInt i128_max; bottom]) [bottom] /\
+  w_add fo (st [CInt 3; CInt i128_max; bottom])
+  = ROk tt (mkstate [] [] [] [] [] [] [CInt (i128_min + 2); bottom] [] [] [] []
+                    (mkctx 1 0 0 0 0 0 0 0 MEval) [] 0%Z None None (Some 10%Z)
+                    (Some [RPopData; RPushData (CInt i128_max); RPushData (CInt 3)]) "" None false) /\
+  w_div fo (st [CInt (-1); CInt i128_min; bottom])
+  = err2 (st [CInt (-1); CInt i128_min; bottom]) (CInt i128_min) (CInt (-1)) [bottom] EOverflow None /\
+  w_rem fo (st [CInt 0; CInt 7; bottom])
+  = err2 (st [CInt 0; CInt 7; bottom]) (CInt 7) (CInt 0) [bottom] EDivZero None /\
+  w_add fo (st [CReal 4607182418800017408; CTag [] (CInt 1); bottom])
+  = err2 (st [CReal 4607182418800017408; CTag [] (CInt 1); bottom]) (CTag [] (CInt 1))
+         (CReal 4607182418800017408) [bottom] EType (Some (CInt 1)) /\
+  w_add fo (st [CInt 1; bottom]) = RErr EUnderflow None
+     (mkstate [] [] [] [] [] [] [bottom] [] [] [] []
+              (mkctx 1 0 0 0 0 0 0 0 MEval) [] 0%Z None None (Some 10%Z)
+              (Some [RPushData (CInt 1)]) "" None false).
+Proof. intro fo. repeat split. cbn. apply le_n. Qed.
